@@ -152,6 +152,20 @@ func c04Cases(tier string, group string, lower bool) []c04Case {
 		for bi := range bases {
 			b := bases[bi]
 			b.cut = -1
+			// the conversations of several requests and the three-operation sets cost an order of magnitude more per
+			// deviation: they are explored one level less deep than the one- and two-call sets
+			heavy := b.ctxCancel
+			nops := 0
+			for _, c := range b.callers {
+				for _, o := range c {
+					nops++
+					heavy = heavy || o.kind == "ReadDir"
+				}
+			}
+			deep := deep
+			if heavy || nops > 2 {
+				deep--
+			}
 			total, writes := measureCalls(b)
 			for k := 0; k <= total; k++ {
 				for _, ce := range []bool{false, true} {
@@ -282,7 +296,7 @@ func init() {
 		}
 		total.Notes["crash_point_cases_total"] = len(cases)
 		total.Notes["crash_point_cases_completed_this_shard"] = completed
-		total.Bound = fmt.Sprintf("%d (crash point x in-flight set) cases, each explored to its deviation bound (calls: db(3) quick / db(4) thorough, one less under the other default schedulers; transfers: db(1) / db(3), their failing writes db(1) / db(2))", len(cases))
+		total.Bound = fmt.Sprintf("%d (crash point x in-flight set) cases, each explored to its deviation bound (one- and two-call sets: db(3) quick / db(4) thorough, listings and three-operation sets one less, all one less under the other default schedulers; transfers: db(1) / db(3), their failing writes db(1) / db(2))", len(cases))
 		return total
 	})
 	reg.Prop(&reg.Property{
